@@ -146,6 +146,15 @@ def waitfor_stage(chk):
                 {**site_case(s), "translator_notes": tr.notes[:6]})
     for s in tr.edges()[:2]:
         chk.sample(site_case(s))
+    # coverage: every textual candidate must have been translated or exempted for a known reason
+    chk.dist("candidates", len(tr.candidates))
+    for rel, line, name, disp in tr.candidates:
+        known = disp[0] in ("site", "tell", "expanded") or (disp[0] == "exempt" and disp[1] in
+                                                            c18_edges.KNOWN_EXEMPTIONS)
+        if not known:
+            chk.corr_failure("translator-coverage", {"file": rel, "line": line, "construct": name,
+                                                     "disposition": list(disp)},
+                             "a textual blocking-call candidate is outside the translated set")
     # the end-of-track callback must wait for the core without any bound
     for s in tr.callback_sites():
         if s[2] != "Blocking":
@@ -240,6 +249,7 @@ def waitfor_stage(chk):
         "Eval vm_compute in (map pair_code (bad_edges edges mopidy_rank)).\n"
         "Eval vm_compute in (map pair_code (filter (fun s => upward mopidy_rank s && site_blocking s) sites)).\n"
         "Eval vm_compute in (map s_line (bounded_callback_sites sites)).\n"
+        "Eval vm_compute in (unaccounted candidates sites).\n"
         f"Eval vm_compute in (unexplained edges {obs_term}%Z).\n"
         "Theorem fresh_mopidy_edges_ranked : rank_ok_b edges mopidy_rank = true.\n"
         "Proof. vm_compute. reflexivity. Qed.\n"
@@ -257,6 +267,8 @@ def waitfor_stage(chk):
         "Proof. intros comp_of code_of. apply (ranked_no_cycle_lemma edges mopidy_rank).\n"
         "  exact fresh_mopidy_edges_ranked. Qed.\n"
         "Print Assumptions fresh_mopidy_no_deadlock.\n"
+        "Theorem fresh_candidates_accounted : candidates_accounted_b candidates sites = true.\n"
+        "Proof. vm_compute. reflexivity. Qed.\n"
         "Theorem fresh_callback_unbounded : callback_unbounded_b sites = true.\n"
         "Proof. vm_compute. reflexivity. Qed.\n"
     )
@@ -275,8 +287,10 @@ def waitfor_stage(chk):
     closed = "Closed under the global context" in out2
     chk.obligation("theorem:fresh_mopidy_edges_ranked", "theorem", rc1 == 0 and closed,
                    "" if closed else (out1 + out2)[-1500:])
-    if len(lists) >= 4:
-        bad, upblock, bounded_cb, unexpl = lists[0], lists[1], lists[2], lists[3]
+    if len(lists) >= 5:
+        bad, upblock, bounded_cb, unacc, unexpl = lists[0], lists[1], lists[2], lists[3], lists[4]
+        chk.obligation("fresh:candidates_accounted", "theorem", not unacc,
+                       f"candidate blocking calls outside the translated set at lines {unacc}")
         chk.obligation("fresh:bad_edges_empty", "theorem", not bad, f"pair codes {bad}")
         chk.obligation("fresh:upward_is_tell", "theorem", not upblock, f"pair codes {upblock}")
         chk.obligation("fresh:callback_unbounded", "theorem", not bounded_cb and rc2 == 0,
